@@ -32,6 +32,62 @@ pub struct TapCounts {
     pub rows: AtomicU64,
     pub opened: AtomicU64,
     pub ended: AtomicU64,
+    /// first place where the node's output left the ordering the node declares (sort-family nodes only)
+    pub order_violation: parking_lot::Mutex<Option<String>>,
+    pub order_checked_rows: AtomicU64,
+}
+
+/// Checks one partition stream of a node against the output ordering that node declares.
+pub struct OrderChecker {
+    exprs: Vec<Arc<dyn PhysicalExpr>>,
+    converter: arrow::row::RowConverter,
+    last: Option<arrow::row::OwnedRow>,
+}
+
+impl OrderChecker {
+    pub fn for_node(node: &Arc<dyn ExecutionPlan>) -> Option<OrderChecker> {
+        // the operators whose job is to establish an order (C08); what other nodes declare is C28's subject
+        if !["SortExec", "SortPreservingMergeExec", "PartialSortExec", "PartitionedTopKExec"].iter().any(|n| node.name().starts_with(n)) {
+            return None;
+        }
+        if std::env::var_os("VERIF_DEBUG_PLAN").is_some() {
+            eprintln!("order checker for {}: declares {:?}", node.name(), node.properties().output_ordering().map(|o| o.to_string()));
+        }
+        let ordering = node.properties().output_ordering()?;
+        let schema = node.schema();
+        let mut exprs = vec![];
+        let mut fields = vec![];
+        for e in ordering.iter() {
+            let dt = e.expr.data_type(&schema).ok()?;
+            fields.push(arrow::row::SortField::new_with_options(dt, e.options));
+            exprs.push(Arc::clone(&e.expr));
+        }
+        let converter = arrow::row::RowConverter::new(fields).ok()?;
+        Some(OrderChecker { exprs, converter, last: None })
+    }
+    /// `Some(message)` if the batch (continuing the previous ones) is out of order.
+    pub fn check(&mut self, batch: &RecordBatch) -> Option<String> {
+        if batch.num_rows() == 0 {
+            return None;
+        }
+        let cols: Vec<arrow::array::ArrayRef> = self.exprs.iter().map(|e| e.evaluate(batch).and_then(|v| v.into_array(batch.num_rows()))).collect::<Result<_>>().ok()?;
+        let rows = self.converter.convert_columns(&cols).ok()?;
+        let show = |i: usize| -> String {
+            cols.iter().map(|c| arrow::util::display::array_value_to_string(c, i).unwrap_or_default()).collect::<Vec<_>>().join(", ")
+        };
+        if let Some(prev) = &self.last {
+            if prev.row() > rows.row(0) {
+                return Some(format!("a batch starts with ({}) after the previous batch ended with a larger key", show(0)));
+            }
+        }
+        for i in 1..rows.num_rows() {
+            if rows.row(i - 1) > rows.row(i) {
+                return Some(format!("({}) is followed by ({})", show(i - 1), show(i)));
+            }
+        }
+        self.last = Some(rows.row(rows.num_rows() - 1).owned());
+        None
+    }
 }
 
 #[derive(Debug)]
@@ -84,7 +140,8 @@ impl ExecutionPlan for TapExec {
     fn execute(&self, partition: usize, context: Arc<TaskContext>) -> Result<SendableRecordBatchStream> {
         let inner = self.input.execute(partition, context)?;
         self.counts.opened.fetch_add(1, Ordering::Relaxed);
-        Ok(Box::pin(TapStream { schema: inner.schema(), inner, counts: Arc::clone(&self.counts), ended: false }))
+        let order = OrderChecker::for_node(&self.input);
+        Ok(Box::pin(TapStream { schema: inner.schema(), inner, counts: Arc::clone(&self.counts), ended: false, order, partition }))
     }
 }
 
@@ -93,6 +150,8 @@ struct TapStream {
     inner: SendableRecordBatchStream,
     counts: Arc<TapCounts>,
     ended: bool,
+    order: Option<OrderChecker>,
+    partition: usize,
 }
 impl Stream for TapStream {
     type Item = Result<RecordBatch>;
@@ -101,6 +160,18 @@ impl Stream for TapStream {
         match &r {
             Poll::Ready(Some(Ok(b))) => {
                 self.counts.rows.fetch_add(b.num_rows() as u64, Ordering::Relaxed);
+                let part = self.partition;
+                let counts = Arc::clone(&self.counts);
+                let this = &mut *self;
+                if let Some(oc) = this.order.as_mut() {
+                    counts.order_checked_rows.fetch_add(b.num_rows() as u64, Ordering::Relaxed);
+                    if let Some(msg) = oc.check(b) {
+                        let mut g = counts.order_violation.lock();
+                        if g.is_none() {
+                            *g = Some(format!("partition {part}: {msg}"));
+                        }
+                    }
+                }
             }
             Poll::Ready(None) if !self.ended => {
                 self.ended = true;
@@ -131,16 +202,20 @@ fn tap_all(plan: &Arc<dyn ExecutionPlan>, taps: &mut Vec<Arc<TapExec>>) -> Resul
     Ok(tap)
 }
 
-pub struct Metrics;
+pub struct Metrics {
+    /// C08 mode: sort-family queries; the oracle is that every sort-family node's output is in the order
+    /// the node declares (its counters are C53's business)
+    pub declared_order: bool,
+}
 
 impl Scenario for Metrics {
     fn name(&self) -> &'static str {
-        "c53-metrics"
+        if self.declared_order { "c08-declared-order" } else { "c53-metrics" }
     }
     fn generate(&self, rng: &mut Rng, tier: Tier) -> Value {
         let big = tier == Tier::Thorough;
         let tg = crate::data::TableGen { parts: (1, 4), batches: (0, if big { 6 } else { 4 }), rows: (0, if big { 16 } else { 8 }), key_domain: *rng.pick(&[2i64, 4, 12]), ..Default::default() };
-        let q = queries::generate(rng, Family::Any);
+        let q = queries::generate(rng, if self.declared_order { Family::Sort } else { Family::Any });
         let pressure = rng.chance(1, 2);
         json!({
             "tables": {"a": {"parts": tg.generate(rng), "sorted": false}, "b": {"parts": tg.generate(rng), "sorted": false}},
@@ -151,6 +226,7 @@ impl Scenario for Metrics {
         })
     }
     fn run(&self, case: Value) -> RunFuture {
+        let declared_order = self.declared_order;
         Box::pin(async move {
             let Some(tables) = sqlsim::parse_tables(&case["tables"]) else { return Outcome::Invalid };
             let Some(env) = EnvSpec::parse(&case["env"]) else { return Outcome::Invalid };
@@ -236,6 +312,21 @@ impl Scenario for Metrics {
             }
             let _ = Consume::Stream;
             tokio::time::sleep(std::time::Duration::from_secs(600)).await;
+            if declared_order {
+                let mut rows = 0u64;
+                for tap in &taps {
+                    rows += tap.counts.order_checked_rows.load(Ordering::Relaxed);
+                    if let Some(msg) = tap.counts.order_violation.lock().clone() {
+                        let node = tap.input();
+                        return violation(
+                            "declared-order-violated",
+                            format!("`{sql}`: the output of {} is not in the order it declares ({}): {msg}", node.name(), datafusion_physical_plan::displayable(node.as_ref()).one_line()),
+                        );
+                    }
+                }
+                sim::probe_n("probe.rows_checked_against_declared_order", rows);
+                return Outcome::Pass;
+            }
             // compare every fully consumed node's metric with what its tap saw
             let mut checked = 0u64;
             for tap in &taps {
@@ -304,7 +395,7 @@ pub fn check() -> Check {
     Check {
         property: "C53",
         level: "exploration",
-        scenarios: vec![Box::new(Metrics)],
+        scenarios: vec![Box::new(Metrics { declared_order: false })],
         cases_quick: 12_000,
         cases_thorough: 300_000,
         rule: "runs: one generated SQL query (whole template corpus) over generated tables in 1-4 scripted partitions under a random configuration (partition counts, repartitioning switches, join preferences, a third under a bounded pool so that spilling paths run) and a seeded schedule; a counting TapExec sits above every node of the optimized plan; after the query was consumed completely, every node all of whose partition streams reached end-of-stream must report output_rows equal to the rows its tap forwarded, and the operators' spilled_bytes must add up to the bytes the spill disk received. distinct = distinct traces",
